@@ -41,6 +41,21 @@ func FmtDiffs(input string) ([]FmtDiff, error) {
 		lines: strings.Split(input, "\n"),
 	}
 
+	// Fragments which share a source line (e.g. `} a = 1`) become one edit, so
+	// that edits never overlap.
+	merged := make([]FmtDiff, 0, len(all))
+	for _, diff := range all {
+		if n := len(merged); n > 0 && diff.FromLine < merged[n-1].ToLine {
+			merged[n-1].NewText += diff.NewText
+			if diff.ToLine > merged[n-1].ToLine {
+				merged[n-1].ToLine = diff.ToLine
+			}
+			continue
+		}
+		merged = append(merged, diff)
+	}
+	all = merged
+
 	out := make([]FmtDiff, 0, len(all))
 	lastEnd := -1
 	for idx, diff := range all {
